@@ -7,12 +7,20 @@ package counter
 // functions and types; they add no behaviour.
 
 import (
+	"runtime/debug"
 	"time"
 )
 
 type VerifFile struct{ f *file }
 
 func VerifNewFile() *VerifFile { return &VerifFile{f: &file{}} }
+
+// VerifNewFileProg: the file object of another program (its build info is
+// what debug.ReadBuildInfo would have returned in that program).
+func VerifNewFileProg(path, version, goVersion string) *VerifFile {
+	return &VerifFile{f: &file{buildInfo: &debug.BuildInfo{GoVersion: goVersion, Path: path,
+		Main: debug.Module{Path: path, Version: version}}}}
+}
 
 func (v *VerifFile) Rotate1() time.Time              { return v.f.rotate1() }
 func (v *VerifFile) Rotate()                         { v.f.rotate() }
